@@ -27,6 +27,7 @@ Act(e) ==
       [] e.op = "mask" -> Mask(e.h)
       [] e.op = "unmask" -> Unmask(e.h)
       [] e.op = "set_observed" -> SetObserved(e.h, SetOf(e.P))
+      [] e.op = "merge" -> MergePlates(e.h, e.a, e.b)
       [] e.op = "save" -> Save(e.h, e.p)
       [] e.op = "load" -> Load(e.p, e.h)
       [] e.op = "cli_reveal" -> CliReveal(e.p, e.q, SetOf(e.S))
